@@ -50,16 +50,16 @@ type simApp struct {
 	cons *consumer.Consumer
 }
 
-func (a *simApp) SetLogEnable(bool)                  {}
-func (a *simApp) SetLogLevel(string)                 {}
-func (a *simApp) SetReportCaller(bool)               {}
-func (a *simApp) Start()                             {}
-func (a *simApp) Terminate()                         {}
-func (a *simApp) Context() *chf_context.CHFContext   { return chf_context.GetSelf() }
-func (a *simApp) Config() *factory.Config            { return factory.ChfConfig }
-func (a *simApp) Consumer() *consumer.Consumer       { return a.cons }
-func (a *simApp) Processor() *processor.Processor    { return a.proc }
-func (a *simApp) CancelContext() context.Context     { return a.ctx }
+func (a *simApp) SetLogEnable(bool)                {}
+func (a *simApp) SetLogLevel(string)               {}
+func (a *simApp) SetReportCaller(bool)             {}
+func (a *simApp) Start()                           {}
+func (a *simApp) Terminate()                       {}
+func (a *simApp) Context() *chf_context.CHFContext { return chf_context.GetSelf() }
+func (a *simApp) Config() *factory.Config          { return factory.ChfConfig }
+func (a *simApp) Consumer() *consumer.Consumer     { return a.cons }
+func (a *simApp) Processor() *processor.Processor  { return a.proc }
+func (a *simApp) CancelContext() context.Context   { return a.ctx }
 
 // Notification recorded by the sink.
 type Notification struct {
@@ -78,22 +78,22 @@ type World struct {
 	cancel context.CancelFunc
 	wg     sync.WaitGroup
 
-	sinkMu   sync.Mutex
-	Notifs   []Notification
-	SinkMode string // "ok" | "500" | "error"
+	sinkMu      sync.Mutex
+	Notifs      []Notification
+	SinkMode    string // "ok" | "500" | "error"
 	SinkDelayNs int64
-	panics   []string
-	lc       *logCapture
-	seed     uint64
-	randCtr  uint64
-	randMu   sync.Mutex
+	panics      []string
+	lc          *logCapture
+	seed        uint64
+	randCtr     uint64
+	randMu      sync.Mutex
 }
 
 var (
 	pristineDict *dict.Parser
-	bootOnce sync.Once
-	hookOnce sync.Once
-	curWorld atomic.Pointer[World]
+	bootOnce     sync.Once
+	hookOnce     sync.Once
+	curWorld     atomic.Pointer[World]
 )
 
 // panicHook records the panics that the CHF's gin recovery middleware logs.
@@ -219,6 +219,17 @@ func Boot(sc *Scenario) (*World, error) {
 	diam.SimBarrier = rt.Barrier
 	diam.SimRand = w.nextID
 
+	mongoapi.SimHook = nil
+	if rc.DBDelayMaxNs > 0 {
+		var dbCalls atomic.Uint64
+		seed, maxNs := sc.Seed, uint64(rc.DBDelayMaxNs)
+		mongoapi.SimHook = func(op, coll string) error {
+			if rt.Active() {
+				time.Sleep(time.Duration(1 + rt.Hash(seed, 0xdb, dbCalls.Add(1))%maxNs))
+			}
+			return nil
+		}
+	}
 	for _, a := range sc.Accounts {
 		d := map[string]interface{}{"ueId": a.Supi, "ratingGroup": int32(a.RG)}
 		if !a.NoQuota {
